@@ -188,9 +188,15 @@ func (rt *runtime) cmplEvaluateNodeForInStatement(node *nodeForInStatement) Valu
 
 	result := emptyValue
 	obj := sourceObject
+	// A property of a prototype is not enumerated if it is shadowed by a property
+	// (enumerable or not) of an object nearer the start of the chain (12.6.4).
+	shadowed := map[string]struct{}{}
 	for obj != nil {
 		enumerateValue := emptyValue
 		obj.enumerate(false, func(name string) bool {
+			if _, skip := shadowed[name]; skip {
+				return true
+			}
 			into := rt.cmplEvaluateNodeExpression(into)
 			// In the case of: for (var abc in def) ...
 			if into.reference() == nil {
@@ -223,6 +229,10 @@ func (rt *runtime) cmplEvaluateNodeForInStatement(node *nodeForInStatement) Valu
 		if obj == nil {
 			break
 		}
+		obj.enumerate(true, func(name string) bool {
+			shadowed[name] = struct{}{}
+			return true
+		})
 		obj = obj.prototype
 		if !enumerateValue.isEmpty() {
 			result = enumerateValue
